@@ -518,7 +518,7 @@ impl MqttShared {
         }
     }
 
-    fn wake_waiter(&self) {
+    pub(super) fn wake_waiter(&self) {
         if let Ok(mut queues) = self.queues.try_borrow_mut() {
             while let Some(tx) = queues.waiters.pop_front() {
                 if tx.send(()).is_ok() {
